@@ -7,8 +7,14 @@ Four legs on every generated input (a small C file of #define lines and invocati
   oracle   real `chibicc -E`  vs  `gcc -E -P` (independent 6.10.3 implementation) at token granularity
   spec     Lean `drv_c09 spec` (Spec/PPSpec.lean, 6.10.3 in the standard's phases)  vs  `gcc -E -P`
 A chibicc/gcc mismatch is a VIOLATION when gcc and the Lean specification agree with each other (two independent
-readings of the standard against chibicc), unless the input lies in the region of known finding C09-placemarker.
-A fifth leg compares chibicc -E with the results PRINTED IN THE STANDARD for the examples of C11 6.10.3.5 (STD_EXAMPLES).
+readings of the standard against chibicc).  There is no known finding left (C09-placemarker was repaired in /repo by
+`fix:` 5a15c0f; a mismatch on a chain of `##` with empty operands is a VIOLATION like any other).
+A fifth leg compares chibicc -E with the results PRINTED IN THE STANDARD for the examples of C11 6.10.3.5 (STD_EXAMPLES,
+EXAMPLE 3, 4, 5, 7).
+A sixth leg ties `subst` ALONE: pp_harness -subst calls the static function subst() of the snapshot's preprocess.c directly on one
+invocation and prints the token list it returns before any rescanning (kind, spelling, at_bol, has_space); `drv_c09 subst` prints
+the model's `subst` on the same definitions and invocation (the function C09_subst_spec is about), the model before `fix:` 5a15c0f
+and the specification.
 A chibicc run that does not finish in 5 s is a violation (non-termination).
 Runs in which `#` produces something that is not a valid string literal (a `\` outside a literal in front of the closing
 quote, `str(\)`) are undefined behaviour (6.10.3.2p2) and are counted as skipped_ub, not compared."""
@@ -25,11 +31,13 @@ TRUSTED_BASE = [
     'Lean 4.33.0 kernel; axioms admitted: propext, Classical.choice, Quot.sound (audited per theorem on every run)',
     'hand-written model lean/ChibiVerif/Model/PP.lean of preprocess.c (hide sets, read_macro_args, subst, expand_macro, preprocess2); '
     'tied on every run by differential execution against the real `chibicc -E` (token spellings, at_bol line structure, has_space, '
-    'diagnostic kind) and against the real preprocess2() run in-process (tools/harness/pp_harness.c #includes the snapshot\'s '
+    'diagnostic kind), against the real static subst() called in-process on single invocations (every token it returns with kind and flags, '
+    'before rescanning) and against the real preprocess2() run in-process (tools/harness/pp_harness.c #includes the snapshot\'s '
     'preprocess.c; ASan/UBSan): the hide set of every output token, names in list order, equals the model\'s on generated definition '
     'sets x invocations (hide sets of intermediate tokens are observed only through what they leave on the output tokens)',
     'translator tools/extract/pp.py (punctuator list, init_macros tables, __COUNTER__ start; pins the shape of subst/expand_macro/is_hash/'
-    'hideset_*/join_tokens/paste/read_macro_arg_one/quote_string, the whole copy loop of stringize and which token kinds it escapes, '
+    'hideset_*/join_tokens/paste/read_macro_arg_one/quote_string, the whole arm "parameter followed by ##" of subst with its '
+    'placemarker loop, the whole copy loop of stringize and which token kinds it escapes, '
     'and fails loudly when they change)',
     'the specification lean/ChibiVerif/Spec/PPSpec.lean (my reading of C11 6.10.3-6.10.3.4, C2x __VA_OPT__, GNU `, ##`), validated against '
     'gcc 12 `-E -P` at token granularity on the same inputs',
@@ -45,7 +53,6 @@ ASSUMPTIONS = [
     'C11 6.10.3.2p2: undefined behaviour) the run is not compared: the C function re-tokenizes its buffer (diagnostic, or a '
     'shorter first token), the model returns the buffer; Props C09_stringize_wellformed proves the two agree everywhere else',
 ]
-KNOWN_ID = 'C09-placemarker'
 TIMEOUT = 5
 FUEL = 200000
 
@@ -304,7 +311,8 @@ def parse_driver(line):
     if not w:
         return ('bad',)
     if w[0].startswith('ok'):
-        # model: ok[:p][b] (ghost flags: placemarker region / a stringized argument with `\\` or `"` outside a literal); spec: ok | okx (crossed)
+        # model: ok[:p][b] (ghost flags: some expansion had `p ## q ##` with both arguments empty, i.e. needed a placemarker chain /
+        # a stringized argument with `\\` or `"` outside a literal); spec: ok | okx (crossed)
         return ('ok', dec(w[1:]), w[0][2:])
     if w[0] == 'err':
         return ('err', w[1])
@@ -421,23 +429,6 @@ def tie_all(c):
 def flat(res):
     return [t[1] for t in res[1]] if res[0] == 'ok' else None
 
-def pm_capable(text):
-    """some #define body has four consecutive tokens `p ## q ##` with p, q parameters (syntactic over-approximation
-    of the region of C09-placemarker, used only when the model itself stops with a diagnostic)"""
-    for line in text.splitlines():
-        m = re.match(r'\s*#\s*define\s+\w+\(([^)]*)\)(.*)', line)
-        if not m:
-            continue
-        ps = {p.strip().replace('...', '') or '__VA_ARGS__' for p in m.group(1).split(',')} | {'__VA_ARGS__'}
-        try:
-            b = [t[1] for t in tokenize(m.group(2))]
-        except LexErr:
-            continue
-        for i in range(len(b) - 3):
-            if b[i] in ps and b[i + 1] == '##' and b[i + 2] in ps and b[i + 3] == '##':
-                return True
-    return False
-
 def str_lit_closed(t):
     """the spelling is one string literal for string_literal_end: closed by an unescaped `"` at its very end"""
     m = re.match(r'(u8|u|U|L)?"', t)
@@ -477,7 +468,7 @@ def strz_ub(c):
     return S[0] == 'ok' and any(k == 's' and not str_lit_valid(t) for k, t, _, _ in S[1])
 
 def oracle_verdict(c):
-    """'agree' | 'both-reject' | ('violation', what) | ('known', what) | ('inconclusive', why)"""
+    """'agree' | 'both-reject' | ('violation', what) | ('inconclusive', why) | ('skipped_…', why)"""
     C, G, S, M = c['C'], c['G'], c['S'], c['M']
     if C[0] == 'hang':
         return ('violation', f'chibicc -E did not finish within {TIMEOUT} s (macro expansion must terminate)')
@@ -496,10 +487,7 @@ def oracle_verdict(c):
         return ('skipped_ub', 'a ## does not give a valid preprocessing token')
     if gf is None:
         return ('inconclusive', 'gcc rejects the input, chibicc accepts it (constraint violation diagnosed late or not at all: not C09): ' + G[1])
-    in_pm = (M[0] == 'ok' and 'p' in M[2]) or (M[0] == 'err' and M[1] in ('pasteAtStart', 'pasteInvalid') and pm_capable(c['text']))
     what = (f"chibicc: {' '.join(cf)[:300] if cf is not None else C[:2]} | gcc -E -P: {' '.join(gf)[:300] if gf is not None else G[:2]}")
-    if in_pm:
-        return ('known', what, KNOWN_ID)
     if re.search(r',\s*##', c['text']):
         return ('inconclusive', 'GNU `, ## __VA_ARGS__` has no C11 text (gcc keeps the comma for an empty-but-present variable argument and does not pre-expand)')
     sf = flat(S)
@@ -737,6 +725,53 @@ def gen_operand_grid(thorough):
             out.append(f'#define f(...) {body}\n[ f({a}) ]\n')
     return out
 
+CHAIN_SHAPES3 = ['x ## y ## z', 'a x ## y ## z b', 'x ## y ## z x y z', '#x x ## y ## z #z', 'x ## y ## z ## 1', '1 ## x ## y ## z',
+                 'x ## 1 ## z', 'x y ## z', 'x ## y z', '( x ## y ## z )', 'x ## y ## z ## x ## y ## z', 'M ## x ## y ## z', 'x ## y ## z ## M']
+CHAIN_SHAPES4 = ['x ## y ## z ## w', 'a x ## y ## z ## w b', 'x ## y ## z ## w x w', 'x ## y ## 1 ## w', 'x ## y z ## w', 'x ## y ## z w',
+                 'a ## x ## y ## z ## w', 'x ## y ## z ## w ## b', '[ x ## y ] ## z ## w', '#x y ## z ## w #w', 'x ## y ## z ## w ## x']
+CHAIN_VA = ['x ## y ## __VA_ARGS__', 'a x ## __VA_ARGS__ ## y b', '__VA_ARGS__ ## x ## y', 'x ## y ## __VA_ARGS__ ## x']
+
+def gen_chain_grid(rng, thorough):
+    """chains of 3 and 4 `##` operands (placemarkers, C11 6.10.3.3p2-3; the loop of `fix:` 5a15c0f): EVERY combination of empty /
+    non-empty arguments (2^3 and 2^4, two different non-empty spellings; thorough: empty / one token / two tokens / a macro name,
+    4^3 and 4^4) for chains alone, behind and in front of other tokens, with a parameter used again outside the chain, next to `#`,
+    with literal operands inside the chain, two chains in one list, variadic operands; and the constraint violations
+    (`##` last after a run of empty operands)"""
+    out = []
+    vals = ['', 'a', '1 2', 'M'] if thorough else None
+    def combos(n):
+        if thorough:
+            return itertools.product(vals, repeat=n)
+        r = []
+        for bits in itertools.product([False, True], repeat=n):
+            r.append(tuple((['a', '1', 'b', '2'][i] if b else '') for i, b in enumerate(bits)))
+            r.append(tuple((['1 2', 'a b', 'M', 'c'][i] if b else '') for i, b in enumerate(bits)))
+        return sorted(set(r))
+    for body in CHAIN_SHAPES3:
+        for a in combos(3):
+            out.append(f'#define M 9 8\n#define f(x,y,z) {body}\n[ f({",".join(a)}) ]\n')
+    for body in CHAIN_SHAPES4:
+        for a in combos(4):
+            out.append(f'#define M 9 8\n#define f(x,y,z,w) {body}\n[ f({",".join(a)}) ]\n')
+    for body in CHAIN_VA:
+        for a in combos(2):
+            for v in ['', ',', ',1', ',1,2', ',,']:
+                out.append(f'#define f(x,y,...) {body}\n[ f({",".join(a)}{v}) ]\n')
+    # a chain whose operands become empty only through an outer macro (the inner invocation sees empty arguments)
+    for a in itertools.product(['', '1'], repeat=3):
+        out.append(f'#define t(x,y,z) x ## y ## z\n#define o(x,y,z) < t(x,y,z) | t(x,,z) | x ## y ## z >\n[ o({",".join(a)}) ]\n')
+    # 5 and 6 operands, all empty but one
+    for n in (5, 6):
+        ps = ['p%d' % i for i in range(n)]
+        for k in range(n + 1):
+            args = ['' if i != k else '7' for i in range(n)]
+            out.append(f'#define f({",".join(ps)}) a {" ## ".join(ps)} b\n[ f({",".join(args)}) ]\n')
+    # `##` as the last token after empty operands: 6.10.3.3p1 (a diagnostic in chibicc and in the model; gcc rejects the definition)
+    for body in ['x ## y ##', 'a x ## y ##', 'x ## y ## z ##', '## x ## y']:
+        for a in itertools.product(['', '1'], repeat=3):
+            out.append(f'#define f(x,y,z) {body}\n[ f({",".join(a)}) ]\n')
+    return out
+
 def gen_recursion_shapes(rng, thorough):
     """every mutual-recursion shape on <= 4 object-like macros (each body: a list of up to two macro names or `a`),
     and the function-like relatives"""
@@ -851,6 +886,12 @@ BATTERY = [
     '#define INCFILE(n) vers ## n\n#define glue(a, b) a ## b\n#define xglue(a, b) glue(a, b)\n#define HIGHLOW "hello"\n#define LOW LOW ", world"\n'
     'debug(1, 2);\nfputs(str(strncmp("abc\\0d", "abc", \'\\4\') == 0) str(: @\\n), s);\nxstr(INCFILE(2).h)\nglue(HIGH, LOW);\nxglue(HIGH, LOW)\n',
     '#define t(x,y,z) x ## y ## z\nint j[] = { t(1,2,3), t(,4,5), t(6,,7), t(8,9,),\n t(10,,), t(,11,), t(,,12) };\n',
+    '#define t(x,y,z) x ## y ## z\nint j[] = { t(1,2,3), t(,4,5), t(6,,7), t(8,9,),\n t(10,,), t(,11,), t(,,12), t(,,) };\n',
+    '#define t(x,y,z) x ## y ## z\nt(,,)\n',
+    '#define u(x,y,z) a x ## y ## z b\nu(,,3) u(,,) u(1,,) u(,2,) u(,,3 4) u( , , )\n',
+    '#define q(x,y,z,w) x ## y ## z ## w\nq(,,,) q(,,,4) q(,,3,) q(1,,,) q(,,3,4) q(1,,,4) q(,2,,) [q(,,,)]\n',
+    '#define t(x,y,z) x ## y ## z\n#define E\n#define o(x) t(x,,)|t(,x,)|t(,,x)\no() o(E) o(1) t(E,,) t(,E,) t(,,E) t(E,E,E)\n',
+    '#define cat3(x,y,z) x ## y ## z\n#define AB 1\n#define A 2\ncat3(A,,B) cat3(,A,B) cat3(A,B,) cat3(,,AB) cat3(,,A)\n',
     '#define debug(...) fprintf(stderr, __VA_ARGS__)\n#define showlist(...) puts(#__VA_ARGS__)\n#define report(test, ...) ((test)?puts(#test): printf(__VA_ARGS__))\n'
     'debug("Flag");\ndebug("X = %d\\n", x);\nshowlist(The first, second, and third items.);\nreport(x>y, "x is %d but y is %d", x, y);\n',
     # line spanning, flags
@@ -865,6 +906,7 @@ BATTERY = [
     '#define f(x,...) x\nf()\n', '#define f(x,y,...) x\nf(1)\n',
     # constraint violations
     '#define f(x) # y\nf(1)\n', '#define f(x) ## x\nf(1)\n', '#define f(x) x ##\nf(1)\n', '#define X ## a\nX\n', '#define X a ##\nX\n',
+    '#define e(x,y) x ## y ##\ne(,)\n', '#define e(x,y) a x ## y ##\ne(,)\n', '#define e(x,y) x ## y ##\ne(1,)\n', '#define e(x,y,z) x ## y ## ## z\ne(,,)\n',
     '#define f(x) x ## +\nf(a)\n', '#define f(x,y) x ## y\nf("a","b") \n', '#define f(x,y) x ## y\nf(., .)\n',
     # pasting that forms other kinds of tokens
     '#define c(x,y) x ## y\nc(+,+) c(-,>) c(<,<=) c(1,e) c(1e,+) c(.,5) c(L,"s") c(L,\'c\') c(u8,"s") c(a,1) c(1,a) c(<<,=) c(#,#) c(%,=) c(.,..) \n',
@@ -882,7 +924,8 @@ BATTERY = [
 ]
 
 # C11 6.10.3.5: source and the result PRINTED IN THE STANDARD (compared at token granularity with chibicc -E, independent
-# of gcc and of the Lean specification).  EXAMPLE 5 (`t(10,,)` ...) is the known finding C09-placemarker and stays in BATTERY only.
+# of gcc and of the Lean specification).  EXAMPLE 5 (`t(10,,)` ...: placemarkers) was the known finding C09-placemarker until
+# `fix:` 5a15c0f; it is compared like the others now.
 # The `debug`/`report` definitions are written on one line (no backslash-newline: C18's subject), `#include xstr(..)` as text.
 _EX3_DEFS = ('#define x 3\n#define f(a) f(x * (a))\n#undef x\n#define x 2\n#define g f\n#define z z[0]\n#define h g(~\n#define m(a) a(w)\n'
              '#define w 0,1\n#define t(a) a\n#define p() int\n#define q(x) x\n#define r(x,y) x ## y\n#define str(x) # x\n')
@@ -904,6 +947,10 @@ STD_EXAMPLES = [
     ('EXAMPLE 4: xstr(INCFILE(2).h)', '#define str(s) # s\n#define xstr(s) str(s)\n#define INCFILE(n) vers ## n\nxstr(INCFILE(2).h)\n', '"vers2.h"\n'),
     ('EXAMPLE 4: str(strncmp...)', '#define str(s) # s\nstr(strncmp("abc\\0d", "abc", \'\\4\') // this goes away\n == 0)\n',
      '"strncmp(\\"abc\\\\0d\\", \\"abc\\", \'\\\\4\') == 0"\n'),
+    ('EXAMPLE 5', '#define t(x,y,z) x ## y ## z\nint j[] = { t(1,2,3), t(,4,5), t(6,,7), t(8,9,),\n t(10,,), t(,11,), t(,,12), t(,,) };\n',
+     'int j[] = { 123, 45, 67, 89,\n 10, 11, 12, };\n'),
+    ('EXAMPLE 5: t(,,)', '#define t(x,y,z) x ## y ## z\n[ t(,,) ]\n', '[ ]\n'),
+    ('EXAMPLE 5: t(,,12)', '#define t(x,y,z) x ## y ## z\n[ t(,,12) ]\n', '[ 12 ]\n'),
     ('EXAMPLE 7', _EX7_DEFS + 'debug("Flag");\ndebug("X = %d\\n", x);\nshowlist(The first, second, and third items.);\n'
                   'report(x>y, "x is %d but y is %d", x, y);\n',
      'fprintf(stderr, "Flag" );\nfprintf(stderr, "X = %d\\n", x );\nputs( "The first, second, and third items." );\n'
@@ -985,7 +1032,6 @@ def gen_strz_random(rng, n):
         out.append(STRZ_DEFS + '[ ' + inv + ' ]\n')
     return out
 
-WITNESS_PM = '#define t(x,y,z) x ## y ## z\nt(,,)\n'
 
 def corpus_cases():
     d = os.path.join(VERIF, 'corpus', 'C09')
@@ -1084,6 +1130,9 @@ def process(ctx, corr, tagged, stop_after=3):
                 corr.extra['harness_crashes'].append({'input': c['text'], 'what': H[1]})
         if c['M'][0] == 'ok' and 'b' in c['M'][2] and not strz_ub(c):
             corr.count('stringize_backslash_outside_literal_compared')
+        if c['M'][0] == 'ok' and 'p' in c['M'][2]:
+            # some expansion had `p ## q ##` with both arguments empty (model ghost flag pmHit): the placemarker loop of subst ran
+            corr.count('placemarker_chain_cases_compared')
         tp = tie_all(c)
         if tp and len(corr.disagreements) < stop_after:
             def bad(t):
@@ -1116,12 +1165,7 @@ def process(ctx, corr, tagged, stop_after=3):
             corr.extra.setdefault('inconclusive_samples', [])
             if len(corr.extra['inconclusive_samples']) < 4:
                 corr.extra['inconclusive_samples'].append({'input': c['text'], 'why': v[1][:300]})
-        elif v[0] == 'known':
-            corr.count('known_region_hits:' + v[2])
-            if len([x for x in corr.violations if x.get('known_id') == v[2]]) < 1:
-                corr.violations.append({'what': 'known region: ' + v[1], 'input': c['text'], 'known_id': v[2],
-                                        'expected': 'gcc -E -P / C11 6.10.3.2-3', 'got': str(c['C'])[:200]})
-        elif v[0] == 'violation' and len([x for x in corr.violations if not x.get('known_id')]) < stop_after:
+        elif v[0] == 'violation' and len(corr.violations) < stop_after:
             def bad(t):
                 _, _, vv = judge_text(ctx, t)
                 return isinstance(vv, tuple) and vv[0] == 'violation'
@@ -1136,7 +1180,7 @@ def process(ctx, corr, tagged, stop_after=3):
     return cases
 
 def std_examples(ctx, corr):
-    """C11 6.10.3.5 EXAMPLE 3, 4, 7: chibicc -E (and the Lean model, and the Lean specification) against the result printed in
+    """C11 6.10.3.5 EXAMPLE 3, 4, 5, 7: chibicc -E (and the Lean model, and the Lean specification) against the result printed in
     the standard, token by token"""
     for name, src, want in STD_EXAMPLES:
         c = run_all(ctx, [src])[0]
@@ -1208,6 +1252,145 @@ def strz_direct(ctx, corr):
                                        + (got[k] if got is not None and k < len(got) else str(C[:2])), 'input': '#define str(s) # s\nstr(' + part[k][0] + ')\n'})
             return
 
+# ---- subst() alone: the static function of preprocess.c called directly (pp_harness -subst) vs `drv_c09 subst`
+
+def subst_cases(rng, thorough):
+    """(definitions, invocation) pairs: the chain grid and the operand grid turned into single invocations, plus random
+    replacement lists (parameters, #, ##, __VA_OPT__, GNU comma, other macros' names) x random argument lists"""
+    out = []
+    for t in gen_chain_grid(rng, thorough) + gen_operand_grid(thorough):
+        lines = t.rstrip('\n').split('\n')
+        m = re.fullmatch(r'\[ (.*) \]', lines[-1])
+        if m:
+            out.append(('\n'.join(lines[:-1]) + '\n', m.group(1) + '\n'))
+    names = [('M', 'obj', 0, False), ('g', 'fn', 1, False), ('E', 'obj', 0, False)]
+    pre = '#define M 9 8\n#define g(x) <x>\n#define E\n'
+    for _ in range(6000 if thorough else 600):
+        np = rng.choice([1, 2, 2, 3, 3, 4])
+        va = rng.random() < 0.3
+        params = ['x', 'y', 'z', 'w'][:np]
+        allow_gnu = rng.random() < 0.15
+        body = rand_body(rng, 'f', 'fn', params, va, names, not allow_gnu, allow_gnu)
+        if rng.random() < 0.5:
+            # a chain of ## over parameters, most of which will be empty
+            ch = [rng.choice(params + (['__VA_ARGS__'] if va else []) + ['1', 'a']) for _ in range(rng.choice([2, 3, 4, 5]))]
+            k = rng.randrange(len(body) + 1)
+            if not (k > 0 and body[k - 1] in ('#', '##')) and not (k < len(body) and body[k] == '##'):
+                body = body[:k] + ' ## '.join(ch).split(' ') + body[k:]
+        head = '#define f(' + ','.join(params + (['...'] if va else [])) + ') '
+        d = pre + head + render([[(t, True) for t in body]])
+        args = []
+        for i in range(np):
+            args.append('' if rng.random() < 0.45 else ' '.join(rand_arg(rng, names, 1, False)))
+        if va:
+            for i in range(rng.choice([0, 0, 1, 2])):
+                args.append('' if rng.random() < 0.4 else ' '.join(rand_arg(rng, names, 1, False)))
+        out.append((d, 'f(' + ','.join(args) + ')\n'))
+    return out
+
+def parse_subst_res(r):
+    w = r.split()
+    if not w:
+        return ('bad',)
+    if w[0] == 'ok':
+        return ('ok', dec(w[1:]))
+    if w[0] == 'err':
+        return ('err', w[1] if len(w) > 1 else '')
+    return ('bad', r[:60])
+
+def subst_direct(ctx, corr):
+    """the real static subst() (in-process, before any rescanning) against Model `subst` on the same invocation: kind, spelling,
+    at_bol and has_space of every token it returns; and, through the driver, the model against the specification on every C11
+    replacement list (C09_subst_spec is a theorem: a mismatch here means driver and library are out of step) and the model
+    BEFORE `fix:` 5a15c0f against the specification (how many of the cases tell the old code from the new)"""
+    rng = ctx.rng
+    cases = subst_cases(rng, ctx.thorough)
+    live = []
+    base = os.path.join(ctx.scratch, 'c09s')
+    os.makedirs(base, exist_ok=True)
+    for j, (d, u) in enumerate(cases):
+        try:
+            td, tu = tokenize(d, ctx), tokenize(u, ctx)
+        except LexErr:
+            continue
+        dd = os.path.join(base, str(j))
+        os.makedirs(dd, exist_ok=True)
+        open(os.path.join(dd, 't.c'), 'w').write(d)
+        open(os.path.join(dd, 'u.c'), 'w').write(u)
+        live.append((d, u, td, tu, dd))
+    exe = build_harness(ctx)
+    env = dict(os.environ, ASAN_OPTIONS='detect_leaks=0:exitcode=99:allocator_may_return_null=1', UBSAN_OPTIONS='exitcode=99')
+    def run_part(part):
+        rc, o, e = sh([exe, '-subst'] + [x[4] for x in part], timeout=60 + 6 * len(part), env=env)
+        lines = o.splitlines()
+        return lines + ['crash harness-rc=%s' % rc] * (len(part) - len(lines))
+    parts = [live[i:i + 40] for i in range(0, len(live), 40)]
+    with ThreadPoolExecutor(max_workers=max(2, NPROC)) as ex:
+        hl = [l for ls in ex.map(run_part, parts) for l in ls]
+    ml = ctx.driver('subst', ''.join(f"{FUEL} {enc(td)} | {enc(tu)}\n" for _, _, td, tu, _ in live)).splitlines()
+    shutil.rmtree(base, ignore_errors=True)
+    for k, (d, u, td, tu, dd) in enumerate(live):
+        corr.evaluations += 1
+        corr.count('subst_direct')
+        h = hl[k] if k < len(hl) else 'crash missing'
+        mline = ml[k] if k < len(ml) else 'bad missing'
+        src = d + u
+        def disagree(what):
+            if len(corr.disagreements) < 3:
+                corr.disagreements.append({'kind': 'static subst() in-process vs Model subst (drv_c09 subst)', 'what': what,
+                                           'input': src, 'definitions': d, 'invocation': u, 'harness': h[:300], 'model': mline[:400]})
+        if h.startswith('crash') or h == 'hang':
+            corr.count('subst_direct_harness_crash_or_hang')
+            corr.extra.setdefault('harness_crashes', [])
+            if len(corr.extra['harness_crashes']) < 3:
+                corr.extra['harness_crashes'].append({'input': src, 'what': h})
+            continue
+        if mline.startswith('na') or h == 'na':
+            if not (mline.startswith('na') and h == 'na'):
+                disagree(f'not an invocation for one side only: harness {h[:40]}, model {mline[:40]}')
+            continue
+        if mline.startswith(('defs ', 'args ')):
+            if h != 'err':
+                disagree(f'model rejects definitions/arguments ({mline}), subst() harness: {h[:80]}')
+            corr.count('subst_direct_both_reject')
+            continue
+        f = mline.split(' ; ')
+        if len(f) != 4 or not f[0].startswith('ok '):
+            disagree('driver could not process the case: ' + mline[:80])
+            continue
+        c11, pm = f[0][3] == '1', f[0][4] == '1'
+        M, O, S = parse_subst_res(f[1]), parse_subst_res(f[2]), parse_subst_res(f[3])
+        corr.nontrivial.add('subst:' + hashlib.sha1(src.encode()).hexdigest())
+        if pm:
+            corr.count('subst_direct_placemarker_chain')
+        # tie: the real subst() against the model, token by token with flags
+        if h == 'err':
+            if M[0] != 'err':
+                disagree('subst() reports an error, the model returns ' + ' '.join(t[1] for t in M[1])[:200])
+            else:
+                corr.count('subst_direct_both_reject')
+        else:
+            H = parse_subst_res(h)
+            if H[0] != 'ok' or M[0] != 'ok':
+                disagree(f'subst() returns tokens, model {M[:2]}' if H[0] == 'ok' else 'harness line not understood')
+            elif H[1] != M[1]:
+                i = next((i for i, (a, b) in enumerate(zip(H[1], M[1])) if a != b), min(len(H[1]), len(M[1])))
+                disagree(f'token {i} of the list subst() returns (kind, spelling, at_bol, has_space): preprocess.c '
+                         f'{H[1][i] if i < len(H[1]) else "<end>"}, model {M[1][i] if i < len(M[1]) else "<end>"}')
+            else:
+                corr.count('subst_direct_tokens_equal')
+        # theorem through the driver: C11 list, specification defines the result => same spellings
+        sp = lambda r: [(t[0], t[1]) for t in r[1]]
+        if c11 and S[0] == 'ok':
+            corr.count('subst_direct_c11_spec_defined')
+            if M[0] != 'ok' or sp(M) != sp(S):
+                disagree('C09_subst_spec through the driver: specification ' + ' '.join(t[1] for t in S[1])[:200] + ' | model ' +
+                         (' '.join(t[1] for t in M[1])[:200] if M[0] == 'ok' else str(M)))
+            if O[0] != 'ok' or sp(O) != sp(S):
+                corr.count('subst_direct_old_subst_differs_from_spec')      # what `fix:` 5a15c0f repaired
+        elif not c11:
+            corr.count('subst_direct_not_c11')
+
 def macro_c(ctx, corr):
     """/repo/test/macro.c through chibicc -E and gcc -E -P: compare the token streams line group by line group
     (the file uses #include/#if, which the Lean model does not cover: oracle leg only)"""
@@ -1278,7 +1461,12 @@ def correspond(ctx, corr):
                  'string and character literals}: (1) corpus of past failures; (2) a hand-written battery (C11 6.10.3.5 examples, '
                  'pre-expansion vs #/## operands, line-spanning invocations, diagnostics, built-ins); (3) the grid of every combination of '
                  'empty/one-token/multi-token/macro/number operands around # and ## for 24 replacement-list shapes, variadics with 0/1/n '
-                 'variable arguments, __VA_OPT__, GNU `, ## __VA_ARGS__`; (4) every mutual-recursion shape on <= 4 object-like macros '
+                 'variable arguments, __VA_OPT__, GNU `, ## __VA_ARGS__`; (3b) chains of 3 and 4 `##` operands (placemarkers, 6.10.3.3p2-3): every '
+                 'combination of empty / non-empty arguments (2^3, 2^4 with two non-empty spellings each; thorough: empty / one token / two '
+                 'tokens / macro name, 4^3 and 4^4) for 13 + 11 replacement-list shapes (chain alone, between other tokens, parameters used '
+                 'again outside the chain, next to #, literal operands inside the chain, two chains), variadic operands, operands that '
+                 'become empty through an outer macro, 5- and 6-operand chains with one non-empty operand, and `##` last after a run of '
+                 'empty operands (constraint violation); (4) every mutual-recursion shape on <= 4 object-like macros '
                  '(exhaustive for <= 2 (<= 3 thorough), sampled above) and 25 function-like recursion shapes; (4b) two function-like '
                  'macros with every replacement list of <= 2 tokens over {x f g ( ) a} (unbalanced parentheses: arguments and `)` taken '
                  'from the text behind the expansion, i.e. the hide-set intersection rule) x 9 inputs that keep offering `(..)` groups '
@@ -1288,35 +1476,33 @@ def correspond(ctx, corr):
                  '{nothing, `\\`, ` \\`, n, ` n`, `\\n`, ` \\ n`} stringized directly (sampled in the quick tier, all 2,555 in the thorough '
                  'tier), runs of bare backslashes, and random arguments of 1-6 tokens mixing those literals, bare `\\`, pp-numbers, '
                  'punctuators, parentheses, comments and tabs as white space, through str / xstr (pre-expanded) / #__VA_ARGS__ with '
-                 'commas / a two-parameter macro that stringizes and copies; (7) C11 6.10.3.5 EXAMPLE 3, 4, 7 against the results '
-                 'printed in the standard.  Each case runs through chibicc -E, the real preprocess2 in-process (hide set of every output '
+                 'commas / a two-parameter macro that stringizes and copies; (7) C11 6.10.3.5 EXAMPLE 3, 4, 5, 7 against the results '
+                 'printed in the standard; (8) subst() alone (in-process, no rescanning) against the model\'s subst, token by token with flags, on '
+                 'the chain grid and the operand grid as single invocations and on random replacement lists x argument lists (about half of '
+                 'them with a chain of 2-5 `##` operands, arguments empty with probability 0.45).  Each case of (1)-(7) runs through chibicc -E, the real preprocess2 in-process (hide set of every output '
                  'token), the Lean model, gcc -E -P and the Lean specification.  '
                  'non-trivial = a macro is defined and the case involves #, ##, a variadic, an invocation spanning lines, or a macro name '
                  'left unexpanded in the output (self-reference / function-like name without parenthesis); distinct = by source text.')
     tagged = corpus_cases()
     tagged += [('battery', t) for t in BATTERY]
     tagged += [('grid', t) for t in gen_operand_grid(ctx.thorough)]
+    tagged += [('chain', t) for t in gen_chain_grid(rng, ctx.thorough)]
     tagged += [('recursion', t) for t in gen_recursion_shapes(rng, ctx.thorough)]
     tagged += [('fnshape', t) for t in gen_fn_shapes(rng, ctx.thorough)]
     tagged += [('strzgrid', t) for t in gen_strz_grid(rng, ctx.thorough)]
     tagged += [('strz', t) for t in gen_strz_random(rng, 400 if not ctx.thorough else 8000)]
     nrand = 1500 if not ctx.thorough else 30000
     tagged += [('random', gen_random_case(rng)) for _ in range(nrand)]
-    # the known finding's witness is replayed on every run
-    for wit, fid in ((WITNESS_PM, KNOWN_ID),):
-        w = run_all(ctx, [wit])[0]
-        corr.evaluations += 1
-        if oracle_verdict(w) != 'agree':
-            corr.known_hits.append(fid)
-        else:
-            corr.extra.setdefault('known_finding_notes', []).append(f'the witness of {fid} now expands like gcc: the finding can be retired')
     # termination smoke test first: when self-reference does not stop, everything below would only time out
     smoke = [('smoke', '#define z z\nz\n'), ('smoke', '#define T U\n#define U T\nT U\n'), ('smoke', '#define f(x) x f(x)\nf(1)\n')]
     process(ctx, corr, smoke)
-    if [v for v in corr.violations if not v.get('known_id')]:
+    if corr.violations:
         return
     std_examples(ctx, corr)
     strz_direct(ctx, corr)
+    if corr.disagreements:
+        return
+    subst_direct(ctx, corr)
     if corr.disagreements:
         return
     chunk = 250
@@ -1324,7 +1510,7 @@ def correspond(ctx, corr):
         cases = process(ctx, corr, tagged[i:i + chunk])
         for c in cases[:2]:
             corr.sample({'input': c['text'], 'chibicc': ' '.join(flat(c['C']) or [str(c['C'][:2])])[:160]}, limit=8)
-        if corr.disagreements or [v for v in corr.violations if not v.get('known_id')]:
+        if corr.disagreements or corr.violations:
             break
     macro_c(ctx, corr)
     if corr.extra.get('macro_c_mismatches'):
@@ -1338,6 +1524,7 @@ def search(ctx, broken, corr):
     gcc + specification as oracle"""
     rng = ctx.rng
     first = corpus_cases() + [('search', t) for t in BATTERY] + [('search', src) for _, src, _ in STD_EXAMPLES]
+    first += [('search', t) for t in gen_chain_grid(rng, False)]
     first += [('search', t) for t in gen_operand_grid(False)] + [('search', t) for t in gen_strz_grid(rng, False)]
     for rnd in range(7):
         if rnd == 0:
@@ -1346,7 +1533,7 @@ def search(ctx, broken, corr):
             tagged = [('search', gen_random_case(rng)) for _ in range(2200)] + [('search', t) for t in gen_strz_random(rng, 300)]
         c2 = Corr()
         process(ctx, c2, tagged)
-        real = [v for v in c2.violations if not v.get('known_id')]
+        real = list(c2.violations)
         if real:
             return real[0]
     return None
@@ -1363,9 +1550,6 @@ def replay(ctx, corr, path):
           '| verdict', v if isinstance(v, str) else v[0], '| tie', tp or 'model agrees with chibicc')
     if isinstance(v, tuple) and v[0] == 'violation':
         corr.violations.append({'what': v[1], 'input': text, 'expected': str(c['G'][:2]), 'got': str(c['C'][:2])})
-    if isinstance(v, tuple) and v[0] == 'known':
-        corr.violations.append({'what': v[1], 'input': text, 'known_id': v[2], 'expected': str(c['G'][:2]), 'got': str(c['C'][:2])})
-        corr.known_hits.append(v[2])
     if tp:
         corr.disagreements.append({'kind': 'model vs chibicc -E', 'what': tp, 'input': text})
 
@@ -1388,18 +1572,26 @@ MANIFEST = {
                   'as `fuelBound` would; for object-like definition sets the sharper '
                   'singly-exponential bound `bound defs input` (C09_terminates_partial); __COUNTER__ yields c, c+1, ... (C09_counter); '
                   'subst produces exactly the spellings of the phase-structured C11 6.10.3.1-3 specification (with placemarkers) whenever '
-                  'that specification defines them, outside the region of the one known finding (placemarkers) and without GNU/C2x '
-                  'extensions, for arbitrary stringized arguments (C09_subst_spec_partial); the token `#` produces is the one C11 6.10.3.2p2 '
+                  'that specification defines them, for EVERY replacement list that is C11 - chains of ## over empty arguments included '
+                  '(placemarker ## placemarker = placemarker: the loop of `fix:` 5a15c0f is simulated turn by turn against pasteAll of the '
+                  'specification), arbitrary stringized arguments, arguments as read_macro_args returns them (C09_subst_spec; '
+                  'C09_subst_spec_partial is the same for any argument list with an empty expansion cache); the decidable predicate isC11 '
+                  'excludes only GNU `, ##` before the variable parameter, C2x `__VA_OPT__(`, and `## #` (order unspecified by 6.10.3.2p2); '
+                  'the token `#` produces is the one C11 6.10.3.2p2 '
                   'prescribes for EVERY argument - `\\` and `"` inside and outside string literals and character constants '
                   '(C09_stringize_spec, after the repair of C09-stringize-backslash-outside-literal in /repo; the formula before the repair '
                   'is kept in Findings/C09.lean as a repaired witness); and the buffer that stringize() hands to tokenize() is exactly one '
                   'string literal whenever every token of the argument is literal-safe (C09_stringize_wellformed: where the model leaves '
                   'the re-tokenization out, nothing is lost; elsewhere the behaviour is undefined).  '
-                  'The full substitution statement is refuted by a kernel-checked witness (Findings/C09.lean: t(,,)).  On every run the model is tied to the real chibicc -E (spellings, line structure, spacing, diagnostic '
-                  'kind) and to the real preprocess2 run in-process (hide set of every output token), and chibicc is compared with gcc -E -P '
-                  'and the Lean specification, on ~4,800 (quick) generated inputs, and with the results printed in C11 6.10.3.5 EXAMPLE 3, 4, 7.',
-    'level_note': 'Partial: C09_subst_spec only outside NoPlacemarkerChain (known finding C09-placemarker) and without `, ## '
-                  '__VA_ARGS__`, `__VA_OPT__(`, `## ##`, `## #`, and only in the direction "specification defines it => subst produces it"; '
+                  'Findings/C09.lean keeps the repaired defects as kernel-checked witnesses of the OLD subst (t(,,), `a x##y##z` with (,,3), '
+                  'EXAMPLE 5) and shows why the all-constructs statement C09_subst_spec_Statement is not a theorem: outside C11 chibicc '
+                  'pre-expands the argument of GNU `, ## __VA_ARGS__` and tests __VA_OPT__ on the unexpanded argument (latitude, not compared).  On every run the model is tied to the real chibicc -E (spellings, line structure, spacing, diagnostic '
+                  'kind), to the real static subst() called in-process on ~2,300 single invocations (token list before rescanning, with flags) '
+                  'and to the real preprocess2 run in-process (hide set of every output token), and chibicc is compared with gcc -E -P '
+                  'and the Lean specification, on ~5,800 (quick) generated inputs, and with the results printed in C11 6.10.3.5 EXAMPLE 3, 4, 5, 7.',
+    'level_note': 'Partial: C09_subst_spec covers C11 replacement lists only (no GNU `, ## __VA_ARGS__`, no `__VA_OPT__(`: specified in '
+                  'Spec/PPSpec.lean and tied by the check, not proved; no `## #`), and only in the direction "specification defines it => '
+                  'subst produces it"; no known finding is left (C09-placemarker and C09-stringize-backslash-outside-literal were repaired in /repo); '
                   'C09_terminates and C09_blue on text without directive lines (the table is fixed while the text is scanned; `fuelBound` is a '
                   'tower in the number of table entries, far from tight).  Trusted: Lean kernel '
                   '(axioms audited each run), the hand model (tied by differential testing of chibicc -E and of the in-process '
